@@ -1,7 +1,7 @@
 CONSTANTS
-  NT = 2
+  NT = 1
   MI = 1
-  MaxPolls = 2
+  MaxPolls = 3
   MaxW = 1
   NJ = 1
   Outcomes = {"selfwake", "ready", "panic"}
